@@ -115,11 +115,11 @@ def write_case(wd, name, columns, rows, dialect, header, header_spelling, encodi
     return path, mdpath, md
 
 
-def load(path, mdpath):
+def load(path, mdpath, **kw):
     from tdda.serial.reader import csv2pandas
     import contextlib
     with contextlib.redirect_stdout(io.StringIO()), contextlib.redirect_stderr(io.StringIO()):
-        return csv2pandas(path, mdpath=mdpath)
+        return csv2pandas(path, mdpath=mdpath, **kw)
 
 
 def run(chk):
@@ -212,6 +212,12 @@ def run(chk):
                 [None, None, None, None, None, None, None],
                 [-7, -0.25, strs[1], False, datetime.datetime(1999, 12, 31), datetime.datetime(2001, 1, 1, 0, 0, 0), True],
                 [rnd.choice([30, 2**53 + 1, -(2**53 + 3), 2**62 + 1]), 2.0, strs[2], True, datetime.datetime(2031, 7, 4), datetime.datetime(2031, 7, 4, 5, 6, 7), True]]       # (integers no double holds, next to a null)
+        # the reader's option for columns the description leaves untyped must leave a declared number column a number column,
+        # also when all its values happen to be whole
+        upi = rnd.random() < 0.3
+        if upi:
+            for row_, whole_ in zip(data, [1.0, None, -4.0, 2.0]):
+                row_[1] = whole_
         if rnd.random() < 0.15:
             data = []           # a table with a header and no records still has its declared types
         cells = []
@@ -226,7 +232,7 @@ def run(chk):
         ev = {'tid': tid, 'ev': 'Load', 'kind': 'matrix', 'raised': 'none', 'names_ok': True, 'dtypes_ok': True, 'values_ok': True,
               'nulls_ok': True, 'rows_ok': True}
         try:
-            df = load(path, mdpath)
+            df = load(path, mdpath, **({'upgrade_possible_ints': True} if upi else {}))
             ev['names_ok'] = list(df.columns) == [c[0] for c in cols]
             ev['rows_ok'] = len(df) == len(data)
             if ev['names_ok'] and ev['rows_ok']:
@@ -251,7 +257,7 @@ def run(chk):
         except Exception as ex:
             ev['raised'] = '%s: %s' % (type(ex).__name__, str(ex)[:160])
         events.append(ev)
-        detail[tid] = {'metadata': md, 'cells': cells, 'dialect': [dl, enc, hd, sp, ti, boolsp], 'second_boolean_spelling': boolsp2}
+        detail[tid] = {'metadata': md, 'cells': cells, 'dialect': [dl, enc, hd, sp, ti, boolsp], 'second_boolean_spelling': boolsp2, 'upgrade_possible_ints': upi}
         chk.coverage['replayed_cases'] += 1
         chk.count_case(('matrix', dl, enc, hd, sp, ti, boolsp), nontrivial=True)
         tid += 1
